@@ -242,7 +242,7 @@ def run(tier, seed):
         "connections, instances re-pointed, property values, one element added or dropped per kind) must make "
         "Comparer.compare() raise; transitions = comparisons")
     found = {}
-    deadline = time.time() + (200 if tier == "quick" else 3000)
+    deadline = time.time() + (900 if tier == "quick" else 6000)
     cs = cases(tier)
     k = seed % 7
     engine_b.run_cases(ID, cs[k:] + cs[:k], cov, found, deadline, level="compare/" + tier)
